@@ -1,17 +1,114 @@
 import NauyacaVerif.Drv.Common
 import NauyacaVerif.Mw.Bucket
 import NauyacaVerif.Mw.Acl
-import NauyacaVerif.Mw.Cert
 namespace NauyacaVerif.Drv.MwD
 open NauyacaVerif.Drv Mw
 
+/-! Line protocol of the middleware area (C09, C10).
+
+```
+acl    <allow> <deny> <default:0|1> <addr>…            → ok raise | ok <a|d per addr> <deny line cps>
+aclcfg <enabled:0|1> <allow> <deny> <default> <addr>…  → ok nostart | ok nochain <a…> | ok chain <a|d…> <deny line cps>
+bucket <cap:rat> <rate:rat> <age:rat> <retry:int> <ev>… → ok <0|1 per request> <refusal line cps>
+  list  ::= - (absent) | [] | [entry,entry,…]
+  entry ::= att | att|att|att          (ip_network(e), ip_network(e/32), ip_network(e/128))
+  att   ::= x | 4/<base>/<plen> | 6/<base>/<plen>
+  addr  ::= u (text did not parse) | 4/<n> | 6/<n>
+  ev    ::= <ip:nat>@<rat> | c@<rat>
+```
+Text parsing stays in Python (`ipaddress`); the model receives numbers. -/
+
+def parseFam : String → Option Fam
+  | "4" => some .v4
+  | "6" => some .v6
+  | _ => none
+
+def isNat (s : String) : Bool := !s.isEmpty && s.all Char.isDigit
+
+/-- outer `none` = malformed; inner `none` = `x` (that attempt raised) -/
+def parseAtt (s : String) : Option (Option Net) :=
+  if s == "x" then some none
+  else match s.splitOn "/" with
+    | [f, b, l] =>
+      match parseFam f with
+      | none => none
+      | some fam => if isNat b && isNat l then some (some ⟨fam, b.toNat!, l.toNat!⟩) else none
+    | _ => none
+
+def parseEntry (s : String) : Option Entry :=
+  match (s.splitOn "|").map parseAtt with
+  | [some a] => some ⟨a, none, none⟩
+  | [some a, some b, some c] => some ⟨a, b, c⟩
+  | _ => none
+
+def allSome {α : Type} : List (Option α) → Option (List α)
+  | [] => some []
+  | none :: _ => none
+  | some x :: r => match allSome r with | none => none | some xs => some (x :: xs)
+
+/-- outer `none` = malformed; inner `none` = list absent -/
+def parseList (s : String) : Option (Option (List Entry)) :=
+  if s == "-" then some none
+  else if s == "[]" then some (some [])
+  else if s.startsWith "[" && s.endsWith "]" then
+    match allSome (((String.ofList ((s.toList.drop 1).dropLast)).splitOn ",").map parseEntry) with
+    | none => none
+    | some es => some (some es)
+  else none
+
+def parseAddr (s : String) : Option (Option Addr) :=
+  if s == "u" then some none
+  else match s.splitOn "/" with
+    | [f, n] =>
+      match parseFam f with
+      | none => none
+      | some fam => if isNat n then some (some ⟨fam, n.toNat!⟩) else none
+    | _ => none
+
+def parseBool : String → Option Bool
+  | "0" => some false
+  | "1" => some true
+  | _ => none
+
+def decisions (acl : Option Acl) (addrs : List (Option Addr)) : String :=
+  String.ofList (addrs.map (fun a => match runningProcess acl a with | none => 'a' | some _ => 'd'))
+
+def isInt (s : String) : Bool := if s.startsWith "-" then isNat (String.ofList (s.toList.drop 1)) else isNat s
+
+def isRat (s : String) : Bool :=
+  match s.splitOn "/" with
+  | [a] => isInt a
+  | [a, b] => isInt a && isNat b && b.toNat! != 0
+  | _ => false
+
+def parseEv (e : String) : Option LEv :=
+  match e.splitOn "@" with
+  | ["c", t] => if isRat t then some (LEv.cleanup (parseRat t)) else none
+  | [ip, t] => if isNat ip && isRat t then some (LEv.req ip.toNat! (parseRat t)) else none
+  | _ => none
+
 def handle : List String → Option String
-  | "bucket" :: cap :: rate :: evs =>
-    let c : LCfg := { cap := parseRat cap, rate := parseRat rate }
-    let evs := evs.map (fun e => match e.splitOn "@" with
-      | ["c", t] => LEv.cleanup (parseRat t)
-      | [ip, t] => LEv.req ip.toNat! (parseRat t)
-      | _ => LEv.cleanup 0)
-    some ("ok " ++ String.ofList ((runL c [] evs).map (fun b => if b then '1' else '0')))
+  | "acl" :: allow :: deny :: dflt :: addrs =>
+    match parseList allow, parseList deny, parseBool dflt, allSome (addrs.map parseAddr) with
+    | some al, some dn, some d, some as =>
+      match mkAcl al dn d with
+      | none => some "ok raise"
+      | some acl => some ("ok " ++ decisions (some acl) as ++ " " ++ showCpsNat denyLine)
+    | _, _, _, _ => some "bad-op"
+  | "aclcfg" :: en :: allow :: deny :: dflt :: addrs =>
+    match parseBool en, parseList allow, parseList deny, parseBool dflt, allSome (addrs.map parseAddr) with
+    | some e, some al, some dn, some d, some as =>
+      match start ⟨e, al, dn, d⟩ with
+      | .failed => some "ok nostart"
+      | .running none => some ("ok nochain " ++ decisions none as)
+      | .running (some acl) => some ("ok chain " ++ decisions (some acl) as ++ " " ++ showCpsNat denyLine)
+    | _, _, _, _, _ => some "bad-op"
+  | "bucket" :: cap :: rate :: age :: retry :: evs =>
+    match (if isRat cap && isRat rate && isRat age && isInt retry then allSome (evs.map parseEv) else none) with
+    | none => some "bad-op"
+    | some es =>
+      let c : LCfg := { cap := parseRat cap, rate := parseRat rate, age := parseRat age }
+      some ("ok " ++ String.ofList ((runL c [] es).map (fun b => if b then '1' else '0')) ++ " "
+        ++ showCpsNat (rateLimitLine (parseInt retry)))
   | _ => none
 end NauyacaVerif.Drv.MwD
